@@ -120,13 +120,13 @@ Proof.
     unfold traverse_abs. rewrite (proj1 (H root)). reflexivity.
   - (* ECall *)
     rewrite (proj2 (H name)).
-    Time solve_eq ltac:(rewrite ?E, ?E2, ?E3).
+    solve_eq ltac:(rewrite ?E, ?E2, ?E3).
   - (* ETuple *)
     rewrite (map_ext _ _ (E anon)). reflexivity.
   - (* EObj *)
-    Time solve_eq ltac:(rewrite ?E, ?E2, ?E3).
+    solve_eq ltac:(rewrite ?E, ?E2, ?E3).
   - (* EFor *)
-    Time solve_eq ltac:(rewrite ?E, ?E2, ?E3).
+    solve_eq ltac:(rewrite ?E, ?E2, ?E3).
   - (* ESplat *)
     assert (M1 : forall l,
                map (fun kv : val * val => eval_with idx f c (Some (snd kv)) e2) l
@@ -169,9 +169,9 @@ Proof.
                | _ => (TDyn, [])
                end)
       by (intro sty; destruct sty; rewrite ?E3, ?M2; reflexivity).
-    Time solve_eq ltac:(rewrite ?RT, ?E, ?E2, ?E3, ?M1, ?M2).
+    solve_eq ltac:(rewrite ?RT, ?E, ?E2, ?E3, ?M1, ?M2).
   - (* ETmpl *)
-    Time solve_eq ltac:(rewrite ?E, ?E2, ?E3).
+    solve_eq ltac:(rewrite ?E, ?E2, ?E3).
 Qed.
 
 Corollary value_ctx_equiv c c' e : ctx_equiv c c' -> value c e = value c' e.
